@@ -1140,6 +1140,9 @@ func (s *TreeShapeListener) ExitHttp_path_var_with_type(ctx *parser.Http_path_va
 		type1.GetTypeRef().Context.Path = nil
 		type1.GetTypeRef().Ref.Path = append(type1.GetTypeRef().Ref.Appname.Part, type1.GetTypeRef().Ref.Path...)
 		type1.GetTypeRef().Ref.Appname = nil
+		// the variable is not a field: do not leave its name in the list that the next table's
+		// primary key is collected from
+		s.fieldname = s.fieldname[:len(s.fieldname)-1]
 	}
 }
 
